@@ -72,7 +72,7 @@ package topologyaware
 //@   ensures[C12] g.cpuType == cpuPreserve ==> rtSharesW[c] == old(rtSharesW[c])
 //@   # C12/C04: memory
 //@   ensures[C12] g.memType == memoryPreserve ==> rtMemsW[c] == old(rtMemsW[c]) && rtMems[c] == old(rtMems[c])
-//@   ensures[C12] known && g.memType != memoryPreserve ==> rtMemsW[c] == old(rtMemsW[c]) + 1 && rtMems[c] == (opt.PinMemory ? g.memZone.MemsetString() : libmem.NodeMask(0).MemsetString())
+//@   ensures[C12,C04] known && g.memType != memoryPreserve ==> rtMemsW[c] == old(rtMemsW[c]) + 1 && rtMems[c] == (opt.PinMemory ? g.memZone.MemsetString() : libmem.NodeMask(0).MemsetString())
 
 // ---- updateSharedAllocations (C01/C12) ----------------------------------------------------------------------------------
 // Grants that are NOT re-pinned: reserved-class, cpu.preserve, exclusive-only grants, and the grant that triggered the update.
